@@ -9,7 +9,7 @@ SD == << A(65, "numeric_bytecode", FALSE, FALSE), A(66, "relative_address", FALS
 SE == << A(81, "numeric", FALSE, FALSE), A(82, "register", FALSE, FALSE), A(83, "indexed_register", FALSE, FALSE) >>
 SF == << A(97, "numeric", FALSE, FALSE), A(98, "relative_address", FALSE, TRUE) >>
 SG == << A(113, "register", FALSE, FALSE), A(114, "register", FALSE, FALSE) >>
-SH == << A(129, "numeric", FALSE, FALSE), A(130, "enumeration", FALSE, FALSE) >>
+SH == << A(129, "numeric", FALSE, FALSE), A(130, "enumeration0", FALSE, FALSE) >>
 SI == << A(145, "indirect_register", FALSE, FALSE), A(146, "indirect_indexed_register", FALSE, FALSE) >>
 \* same-type alternatives that accept the same text: definition order decides
 SJ == << A(161, "indirect_register", FALSE, FALSE), A(162, "indirect_register", TRUE, FALSE) >>
